@@ -204,6 +204,10 @@ func c11Procedures(c *fw.Case) (o fw.Outcome) {
 		o.Inconcl("procedure driver child exceeded its watchdog")
 		return
 	}
+	if pr != nil && pr.Stuck {
+		o.Fail("procedure-stuck", "the network answered every message and has been silent for 25 s, yet the procedure has not returned\n conversation:%s", pr.Conversation)
+		return
+	}
 	if pr == nil {
 		o.Fail("procedure-failed", "a procedure ended the process (exit %d) although the network behaved conformantly: %s", code, tail(raw, 600))
 		return
